@@ -125,6 +125,10 @@ def c17(tier, seed):
     fam("ini", 5 + X, 16 if X else 6, 8); fam("inifile", 5 + X, 16 if X else 8, 3)
     fam("apache0", 5 + X, 16 if X else 6, 8); fam("apache3", 5 + X, 16 if X else 6, 8)
     fam("longline", 0, 1, 4)
+    # the parser families again in the unoptimised, uninstrumented build (uninitialised-stack oracle)
+    for name, L, shards in (("apache0", 5 + X, 4), ("apache3", 5 + X, 4), ("ini", 5 + X, 4), ("inifile", 4 + X, 2), ("query", 6 + X, 1)):
+        for i in range(shards):
+            jobs.append(Job("o0-%s-%d" % (name, i), H, [name, L, i, shards], wraps=W, flavour="o0", weight=4))
     return jobs
 
 # ---------------------------------------------------------------- C20
@@ -160,6 +164,12 @@ def c20(tier, seed):
     for f, sh in ((0, 1), (1, 12), (2, 10), (3, 10)):
         for i in range(sh):
             jobs.append(Job("acstruct-f%d-%02d" % (f, i), H, ["acstruct", f, 2, 2 + X, i, sh], wraps=W, weight=12))
+    # unoptimised, uninstrumented build (uninitialised-stack oracle) for the rejecting / nesting paths
+    for f in (0, 1):
+        jobs.append(Job("o0-acstruct-f%d" % f, H, ["acstruct", f, 2, 2, 0, 1 if f == 0 else 6], wraps=W, flavour="o0", weight=6))
+    jobs.append(Job("o0-actype-0", H, ["actype", 0], wraps=W, flavour="o0", weight=2))
+    jobs.append(Job("o0-acquote-0", H, ["acquote", 2, 0, 1], wraps=W, flavour="o0", weight=2))
+    jobs.append(Job("o0-ini-0", H, ["ini", 3, 0, 1], wraps=W, flavour="o0", weight=2))
     return jobs
 
 VA_WRAPS = ["malloc", "calloc", "realloc", "strdup", "free"]
